@@ -44,6 +44,9 @@ Section S.
   Lemma ksorted_inv k v m : ksorted ((k, v) :: m) -> ksorted m /\ Forall (fun y => klt k (fst y)) m.
   Proof. intros H; inversion H; subst; auto. Qed.
 
+  Lemma ksorted_inv' (kv : Key * V) m : ksorted (kv :: m) -> ksorted m /\ Forall (fun y => klt (fst kv) (fst y)) m.
+  Proof. intros H; inversion H; subst; auto. Qed.
+
   Lemma kset_keys_ge k0 k v m : klt k0 k -> Forall (fun y => klt k0 (fst y)) m ->
     Forall (fun y => klt k0 (fst y)) (kset m k v).
   Proof.
